@@ -234,6 +234,35 @@ func mutateTokens(r *lib.Rand, toks []Lexeme) []Lexeme {
 	return t
 }
 
+// oneLine removes the line ends inside string lexemes: the case evaluator derives "on a new line"
+// from the lines where tokens START, which is Lua 5.1's rule only if no token spans lines.
+func oneLine(toks []Lexeme) []Lexeme {
+	out := make([]Lexeme, len(toks))
+	for i, l := range toks {
+		switch l.K {
+		case "str":
+			items := make([]SItem, len(l.Items))
+			for k, it := range l.Items {
+				if it.K == "escnl" {
+					it = SItem{K: "esc", C: 'n'}
+				}
+				items[k] = it
+			}
+			l.Items = items
+		case "long":
+			b := append([]byte(nil), l.S...)
+			for k := range b {
+				if b[k] == '\n' || b[k] == '\r' {
+					b[k] = ' '
+				}
+			}
+			l.S = HB(b)
+		}
+		out[i] = l
+	}
+	return out
+}
+
 // mutLayout: blanks, now and then a line end (so that "(" on a new line occurs)
 func mutLayout(r *lib.Rand, toks []Lexeme) []byte {
 	var b []byte
@@ -256,7 +285,7 @@ func mutLayout(r *lib.Rand, toks []Lexeme) []byte {
 }
 
 func runTokenMutations(w *lib.Writer, r *lib.Rand, tier string) {
-	n := 1500
+	n := 1200
 	if tier == "thorough" {
 		n = 30000
 	}
@@ -268,9 +297,9 @@ func runTokenMutations(w *lib.Writer, r *lib.Rand, tier string) {
 	for i := 0; i < n; i++ {
 		cr := r.Fork()
 		a, b := genProgram(cr, cr.Range(1, 4))
-		toks := a
+		toks := oneLine(a)
 		if cr.Chance(30) {
-			toks = b
+			toks = oneLine(b)
 		}
 		if cr.Chance(8) { // unmutated: must be accepted by both
 			jobs = append(jobs, job{mutLayout(cr, toks)})
@@ -331,7 +360,7 @@ func kfParse(src []byte, r Result) []string {
 // reference tree printed back compiled to the same bytecode.
 func addProgCase(w *lib.Writer, a, b []Lexeme, same bool, note string) {
 	id := w.NextID()
-	w.Add(lib.Case{Input: map[string]any{"kind": "prog", "a": a, "b": b}, Observed: map[string]any{"printback_same_bytecode": same, "note": note},
+	w.Add(lib.Case{Input: In{Kind: "prog", A: a, B: b}, Observed: map[string]any{"printback_same_bytecode": same, "note": note},
 		Class: "program/reference-parser", Nontrivial: len(a) >= 8,
 		Coq: fmt.Sprintf("CProg %s %s %s", lexemesCoq(a), lexemesCoq(b), lib.CoqBool(same))})
 	if !same {
@@ -341,7 +370,7 @@ func addProgCase(w *lib.Writer, a, b []Lexeme, same bool, note string) {
 
 // runPrograms: reference parser on whole programs + print-back through gopher-lua's compiler.
 func runPrograms(w *lib.Writer, r *lib.Rand, tier string, outDir string) {
-	n := 150
+	n := 120
 	if tier == "thorough" {
 		n = 1500
 	}
@@ -351,6 +380,14 @@ func runPrograms(w *lib.Writer, r *lib.Rand, tier string, outDir string) {
 		pr := r.Fork()
 		as[i], bs[i] = genProgram(pr, pr.Pick(3, 4, 2, 1)*pr.Range(1, 4))
 	}
+	progCheck(w, as, bs, r, outDir)
+	w.Meta.Extra["programs_printed_back"] = n
+}
+
+// progCheck: reference parser on whole programs + the reference tree printed back through
+// gopher-lua's compiler.
+func progCheck(w *lib.Writer, as, bs [][]Lexeme, r *lib.Rand, outDir string) {
+	n := len(as)
 	back, err := printBack(outDir, as)
 	if err != nil {
 		addGoSide(w, In{Kind: "adv", Shape: "printback-prepass"}, Result{Load: loadOtherErr, Msg: err.Error()}, "program/reference-parser", nil)
@@ -381,7 +418,4 @@ func runPrograms(w *lib.Writer, r *lib.Rand, tier string, outDir string) {
 		}
 		addProgCase(w, as[i], bs[i], same, note)
 	}
-	w.Meta.Extra["programs_printed_back"] = n
 }
-
-var _ = strconv.Itoa
